@@ -453,7 +453,7 @@ func goSeqOracle(c GoSeqCase, o *h.Obs) *h.Fail {
 	wait := goCallGrace
 	goCallReportedMu.Lock()
 	if goCallReported[sigNot] {
-		wait = 50 * time.Millisecond
+		wait = 10 * time.Millisecond
 	}
 	goCallReportedMu.Unlock()
 	timer := time.NewTimer(wait)
